@@ -42,6 +42,11 @@ CHECKS = {
   note="Only exit-status-0 runs are judged; tool crashes are counted in evidence (C04-style), runs where no sync sample exists at/after the duration are inconclusive.",
   technique="runtime monitor: black-box tool runs on generated inputs with a reference-model oracle over output bytes",
   design_ref="DESIGN.md §3 C10"),
+ "C11": dict(
+  text="Black-box conservation monitor: the built segmenter (single/mux/lazy modes), resegmenter and combine-segs binaries and the library call MediaSegment.Fragmentify are run on generated progressive (gen/prog) and fragmented (gen/frag) inputs with stamped samples, ~1.6 k cases / 4 k tool runs (quick), 49 k cases / 115 k tool runs (thorough); all produced segments are expanded from their bytes by ref/frag, concatenated per track and compared with the generator's ground-truth sample list (bytes, size, duration, sync/flags, cto, decode time; nothing missing or extra at the end); every produced segment must start with a sync sample of the reference track.",
+  note="Only successful tool runs are judged; tool crashes on inputs outside the tools' documented domain are counted in evidence (COVERAGE-NOTE); combine-segs only on inputs that do not rely on trex defaults; the resegmenter's handling of input decode-time gaps is a recorded known finding.",
+  technique="runtime monitor: black-box tool runs on generated inputs, conservation oracle over independently expanded output bytes",
+  design_ref="DESIGN.md §3 C11"),
  "C12": dict(
   text="Layout monitor: 5 k (quick) / 250 k (thorough) generated fragmented files (styp/sidx/mfra/emsg layouts x decode flags) with ground-truth byte positions; oracles: every moof/mdat in exactly one segment/fragment with true StartPos (strong boundary form for single-mechanism layouts), byte-identical re-encode in segment mode, and sidx tiling after UpdateSidx / the add-sidx binary read back from bytes by ref/frag.",
   note="Mixed delimiter layouts get only the weak grouping form (the statement does not say how mechanisms combine); durations/EPT from the harness model.",
